@@ -306,6 +306,7 @@ MEDDLY::reachset_tradf_factory <FWD>::build_new(forest* a, forest* b, forest* c)
             case range_type::BOOLEAN:
                 imageOp = FWD ? MEDDLY::build(POST_IMAGE, a, b, c)
                               : MEDDLY::build(PRE_IMAGE,  a, b, c);
+                if (!imageOp) return nullptr;
 
                 unionOp = MEDDLY::build(UNION, c, c, c);
                 diffrOp = MEDDLY::build(DIFFERENCE, c, c, c);
@@ -362,6 +363,7 @@ MEDDLY::reachset_tradnof_factory <FWD>::build_new(forest* a, forest* b, forest* 
             case range_type::BOOLEAN:
                 imageOp = FWD ? MEDDLY::build(POST_IMAGE, a, b, c)
                               : MEDDLY::build(PRE_IMAGE,  a, b, c);
+                if (!imageOp) return nullptr;
 
                 unionOp = MEDDLY::build(UNION, c, c, c);
                 return new reachset_no_frontier(imageOp, unionOp);
@@ -369,6 +371,7 @@ MEDDLY::reachset_tradnof_factory <FWD>::build_new(forest* a, forest* b, forest* 
             case range_type::INTEGER:
                 imageOp = FWD ? MEDDLY::build(POST_IMAGE, a, b, c)
                               : MEDDLY::build(PRE_IMAGE,  a, b, c);
+                if (!imageOp) return nullptr;
 
                 unionOp = MEDDLY::build(DIST_MIN, c, c, c);
                 return new reachset_no_frontier(imageOp, unionOp);
@@ -382,6 +385,7 @@ MEDDLY::reachset_tradnof_factory <FWD>::build_new(forest* a, forest* b, forest* 
         if (c->getRangeType() == range_type::INTEGER) {
             imageOp = FWD ? MEDDLY::build(POST_IMAGE, a, b, c)
                           : MEDDLY::build(PRE_IMAGE,  a, b, c);
+            if (!imageOp) return nullptr;
 
             unionOp = MEDDLY::build(MINIMUM, c, c, c);
             return new reachset_no_frontier(imageOp, unionOp);
